@@ -6,7 +6,7 @@ rows = collections.OrderedDict()
 logs = sorted(os.listdir('logs'))
 for lg in logs:
     for line in open('logs/' + lg):
-        m = re.match(r'(C\d\d[A-N]) (CAUGHT\(no-input\)|CAUGHT|MISSED|NEUTRALISED)', line)
+        m = re.match(r'(C\d\d[A-P]) (CAUGHT\(no-input\)|CAUGHT|MISSED|NEUTRALISED)', line)
         if not m:
             continue
         f = re.search(r'findings (\d+)', line)
